@@ -229,7 +229,9 @@ def do_cic(ctx, inp):
             def rekey(x):
                 if isinstance(x, dict):
                     y = {k: rekey(v) for k, v in x.items()}
-                    if set(y) == {"id"}: y = {"code": y["id"]}
+                    if set(y) == {"id"}:
+                        # (half of the components also carry a record number of their own under "id": the caller asked for "code")
+                        y = {"code": y["id"], "id": "cmp-%s" % y["id"]} if (sum(map(ord, y["id"])) + inp.get("salt", 0)) % 2 else {"code": y["id"]}
                     return y
                 if isinstance(x, list): return [rekey(v) for v in x]
                 return x
@@ -251,6 +253,18 @@ def do_cic(ctx, inp):
     # … and the harness-side rendering of the same mapping (kept as a cross-check of the two descriptions)
     ctx.op({"op": "build", "ast": cic_ast(d, mode)}, {"t": t}, label="build-cic_ast")
     lv = leaves_of(t)
+    # the rule speaks about the components the dictionary names (under the key the caller pointed at): those are the leaves
+    named = set()
+    def comps(x):
+        if isinstance(x, dict):
+            if "components" in x:
+                for c_ in x["components"]: named.add(c_["id"])
+            for v_ in x.values(): comps(v_)
+        elif isinstance(x, list):
+            for v_ in x: comps(v_)
+    comps(d)
+    if set(lv) != named:
+        ctx.fail("cicJE-leaves-are-not-the-named-components", {"model_leaves": sorted(lv), "components": sorted(named), "mode": mode}); return
     for s in all_assignments(lv):
         want = cic_truth(d, s)
         got = o.evaluate(s).constant
@@ -357,7 +371,7 @@ def run(ctx):
         ctx.tags["argument-listed-more-than-once"] += 1
         do_case(ctx, {"ast": a})
     for _ in range(n // 2):
-        do_case(ctx, {"cic": gen_cic(ctx.rng), "mode": ctx.rng.choice(["default", "default", "str", "ident", "var"])})
+        do_case(ctx, {"cic": gen_cic(ctx.rng), "mode": ctx.rng.choice(["default", "default", "str", "ident", "ident", "var"]), "salt": ctx.rng.randint(0, 1)})
     if not ctx.quick and not ctx.search:
         for a in small_scope():
             try:
